@@ -34,22 +34,31 @@ def turnJson (sz : Item → Nat) (body : List Item) : Json :=
        ("token", ofOpt ofNat (body.findSome? fun | .token p => some p | _ => none)),
        ("bytes", ofNat (bytes sz (body.filter fun | .token _ => false | _ => true)))]
 
+/-- a step may carry `"hinted": STEP` — what the producer plays at that position when its tick carries the init request's
+metadata; without it the producer ignores its tick there -/
+def rstep (j : Json) : R RStep := do
+  let plain ← Engine.Driver.step j
+  let hinted ← match fieldOpt j "hinted" with
+    | some h => Engine.Driver.step h
+    | none => pure plain
+  pure ⟨plain, hinted⟩
+
 structure Setup where
   cap0 : Option Nat
   cap : Option Nat
   pre : Nat
   initLogs : List Log
-  steps : List Step
+  steps : List RStep
   sz : Item → Nat
 
 def setup (a : Json) : R Setup := do
   let il ← Engine.Driver.logs a "init_logs"
-  let st ← Engine.Driver.steps a
+  let st ← (← arrF a "steps").mapM rstep
   let isz ← match fieldOpt a "init_sizes" with | some j => natList j | none => pure []
   let ssz ← match fieldOpt a "sizes" with | some j => do (← arr j).mapM natList | none => pure []
   let sentinel ← match fieldOpt a "sentinel" with | some j => nat j | none => pure 0
   pure { cap0 := (← optNat a "cap0"), cap := (← optNat a "cap"), pre := (← natF a "pre"), initLogs := il, steps := st,
-         sz := mkSz (table il isz st ssz) sentinel }
+         sz := mkSz (table il isz (resolve true st) ssz) sentinel }
 
 def hexOpt (j : Json) (k : String) : R (Option Bytes) :=
   match fieldOpt j k with
@@ -66,21 +75,21 @@ def handle (fn : String) (a : Json) : R Json := do
   | "run" =>
     -- open + iterate under cap0 (the /init worker) and cap (every continuation worker)
     let s ← setup a
-    let server := serve (fun _ => s.cap) s.sz s.pre s.steps
-    let init := initBody s.cap0 s.sz s.pre s.initLogs s.steps
+    let server := serveT (fun _ => s.cap) s.sz s.pre s.steps
+    let init := initBodyT s.cap0 s.sz s.pre s.initLogs s.steps
     let fuel := s.steps.length + 1
-    pure (obj [("obs", Engine.Driver.obsJson (obs (iterate s.cap0 (fun _ => s.cap) s.sz s.pre s.initLogs s.steps))),
+    pure (obj [("obs", Engine.Driver.obsJson (obs (iterateT s.cap0 (fun _ => s.cap) s.sz s.pre s.initLogs s.steps))),
                ("turns", ofList ((turnsOf server fuel init).map (turnJson s.sz))),
                ("count", ofNat (countTurns server fuel init)),
-               ("sem", Engine.Driver.obsJson (obs (Sem.lg s.initLogs ++ Sem.producer false s.steps)))])
+               ("sem", Engine.Driver.obsJson (obs (Sem.lg s.initLogs ++ Sem.producer false (resolve true s.steps))))])
   | "resume" =>
     -- the continuation for step index `pos` on a worker with cap `cap`, followed to the end
     let s ← setup a
     let pos ← natF a "pos"
-    let server := serve (fun _ => s.cap) s.sz s.pre s.steps
+    let server := serveT (fun _ => s.cap) s.sz s.pre s.steps
     let fuel := s.steps.length + 1
     pure (obj [("evs", Engine.Driver.evs (Http.follow server fuel (server pos))),
-               ("rest", Engine.Driver.evs (Sem.producer false (s.steps.drop pos))),
+               ("rest", Engine.Driver.evs (Sem.producer false ((s.steps.map (·.plain)).drop pos))),
                ("turns", ofList ((turnsOf server fuel (server pos)).map (turnJson s.sz)))])
   | "decide" =>
     let cap ← optNat a "cap"
